@@ -88,6 +88,7 @@ type retInfo struct {
 	guard *Term
 	vals  []Val
 	mem   Mem
+	block *ssa.BasicBlock
 }
 
 type Frame struct {
@@ -623,6 +624,26 @@ type ptrAlias struct {
 	cell   *Cell
 	path   []PathEl
 	target PtrV
+	guard  *Term // path condition under which the pointer was stored (nil: always)
+}
+
+// aliasLive: the alias was recorded on a path the current one extends (every conjunct of its
+// guard is a conjunct of the current path condition); an alias recorded on another branch says
+// nothing here.
+func aliasLive(al ptrAlias, cur *Term) bool {
+	if al.guard == nil || al.guard.IsTrue() || cur == nil {
+		return true
+	}
+	have := map[int]bool{}
+	for _, c := range conjuncts(cur) {
+		have[c.id] = true
+	}
+	for _, c := range conjuncts(al.guard) {
+		if !have[c.id] {
+			return false
+		}
+	}
+	return true
 }
 
 func samePath(a, b []PathEl) bool {
@@ -653,7 +674,12 @@ func (ex *Exec) refreshAliases(mem Mem, c *Cell, cv *Term) *Term {
 				cur, _ := project(cv, c.Typ, al.path)
 				// only while the field still holds a non-nil pointer (it may have been overwritten on some path)
 				nv := PtrRef(PtrSort(al.target.Elem), tv)
-				cv = update(cv, c.Typ, al.path, Ite(PtrIsNil(cur), cur, nv))
+				live := Not(PtrIsNil(cur))
+				if al.guard != nil {
+					// the alias holds only on the paths on which the pointer was stored
+					live = And(al.guard, live)
+				}
+				cv = update(cv, c.Typ, al.path, Ite(live, nv, cur))
 			}()
 		}
 	}
@@ -662,7 +688,7 @@ func (ex *Exec) refreshAliases(mem Mem, c *Cell, cv *Term) *Term {
 
 func (fr *Frame) aliasAt(c *Cell, path []PathEl) (PtrV, bool) {
 	for _, al := range fr.ex.ptrAliases {
-		if al.cell == c && samePath(al.path, path) {
+		if al.cell == c && samePath(al.path, path) && aliasLive(al, fr.cur) {
 			return al.target, true
 		}
 	}
